@@ -346,6 +346,8 @@ class World:
 
         if body == "json":
             content, headers = json.dumps(payload).encode(), {"Content-Type": "application/json"}
+        elif body == "json_charset":
+            content, headers = json.dumps(payload).encode(), {"Content-Type": "application/json; charset=utf-8"}
         else:
             content, headers = urlencode(payload).encode(), {"Content-Type": "application/x-www-form-urlencoded"}
         req = MockRequest(content, "127.0.0.1", method=method, headers=headers)
